@@ -347,6 +347,12 @@ def main(argv=None):
         shards = [s for s in shards if s.get("kind") == a.only]
     work = [(prop, a.tier, seed, i, s, known_sigs) for i, s in enumerate(shards)]
     results = []
+    # VERIF_FAILFAST=1 (set by the sensitivity self-test for patched trees only): stop at the first shard that reports a violation
+    failfast = os.environ.get("VERIF_FAILFAST") == "1"
+    stopped_early = False
+    if failfast and violations:
+        work = []
+        stopped_early = True
     if a.jobs <= 1 or len(work) <= 1:
         results = [_worker(w) for w in work]
     else:
@@ -354,6 +360,10 @@ def main(argv=None):
         with mpctx.Pool(min(a.jobs, len(work)), maxtasksperchild=1) as pool:
             for r in pool.imap_unordered(_worker, work, chunksize=1):
                 results.append(r)
+                if failfast and r.get("violations"):
+                    stopped_early = True
+                    pool.terminate()
+                    break
 
     evaluations = 0
     bulk_nt = 0
@@ -394,7 +404,7 @@ def main(argv=None):
         mod.summarize(classes)
 
     # ---- floors (anti-vacuity) ----
-    floors = getattr(mod, "FLOORS", {}).get(a.tier, {}) if not a.only else {}
+    floors = getattr(mod, "FLOORS", {}).get(a.tier, {}) if not a.only and not stopped_early else {}
     for cls, minimum in floors.items():
         if classes.get(cls, 0) < minimum:
             harness_errors.append("class floor not met: %s = %d < %d" % (cls, classes.get(cls, 0), minimum))
